@@ -99,10 +99,12 @@ def assert_1(predicate, name="", error=ValueError):
     def _assert_1(source):
         def on_subscribe(observer, scheduler):
             last = None
+            has_last = False
 
             def on_next(i):
                 nonlocal last
-                if last is not None:
+                nonlocal has_last
+                if has_last is True:
                     if predicate(last, i) is True:
                         observer.on_next(i)
                     else:
@@ -111,6 +113,7 @@ def assert_1(predicate, name="", error=ValueError):
                     observer.on_next(i)
 
                 last = i
+                has_last = True
 
             return source.subscribe(
                 on_next=on_next,
